@@ -30,3 +30,10 @@ SPEC_MODULE_PROPS = {
     'tok': ['C06', 'C07', 'C11', 'C15'],
     'filt': ['C11'],
 }
+
+TRUSTED_STRSPEC = 'assumed contracts on std str/iterator functions (str::contains/starts_with via Pattern, char_indices, Filter::count, slice::Iter::position, Iterator::find/sum wrappers, String::with_capacity, Cow deref, char::is_ascii_alphabetic, BytesMut::from(&str), Bytes) in contracts/prelude/vx_base.rs'
+TRUSTED_TOK = "oracle: spec port of MPD's Tokenizer (NextWord/NextParam/NextString/NextUnquoted/StripLeft) in contracts/spec/tok.rs, transcribed from the MPD sources from memory; char-level model of a byte-level tokenizer (every byte of a multi-byte UTF-8 scalar is >= 0x80, so no byte of it is a separator, quote or backslash)"
+TRUSTED_MEM = 'a str in memory is shorter than 2^62 bytes and the lengths of simultaneously live buffers sum to less than 2^62 (capacity arithmetic in escape_argument / CommandList::render)'
+for _k, _b in (('C06', ['cmdsearch']), ('C07', ['cmdsearch', 'literals']), ('C13', ['cmdsearch', 'literals'])):
+    PROPS[_k] = {'units': ['P', 'Pc'], 'spec_tags': ['tok'], 'trusted': [TRUSTED_BYTES, TRUSTED_STRSPEC, TRUSTED_TOK, TRUSTED_MEM, TRUSTED_STD], 'bounded': _b}
+PROPS['C13']['trusted'].append('the values of the byte-string literals COMMAND_LIST_BEGIN/END are assumed in Verus (contract C13.literal.*) and decided by executing them (bounded_standins: literals)')
